@@ -462,7 +462,8 @@ func (a *az) carriers(e ast.Expr) []*types.Var {
 		}
 	case *ast.UnaryExpr:
 		if v.Op == token.AND {
-			if r, _ := a.pathRoot(v.X); r != nil && a.fresh[r] {
+			// a pointer to an element of a slice/map held by the object is not a pointer into the object
+			if r, in := a.pathRoot(v.X); r != nil && in && a.fresh[r] {
 				out = append(out, r)
 			}
 			if cl, ok := unparen(v.X).(*ast.CompositeLit); ok {
